@@ -257,7 +257,8 @@ class Repo:
                     raise AnalysisError("cannot parse %s: %s" % (path, e))
         from .libcanon import canon_library
         canon_library([m.tree for m in self.modules.values()])
-        from .classcanon import canon_helper_objects
+        from .classcanon import canon_helper_objects, canon_memo_attributes
+        self.memo_attributes = canon_memo_attributes([m.tree for m in self.modules.values()])
         self.helper_objects_expanded = canon_helper_objects([m.tree for m in self.modules.values()])
         from .gencanon import canon_generators
         self.generators_rewritten = canon_generators([m.tree for m in self.modules.values()])
@@ -680,7 +681,7 @@ class Repo:
         """Inline a repo function whose body is (docstring +) a single `return <expr>`."""
         fi = self.functions[q]
         body = [s for s in fi.node.body if not (isinstance(s, ast.Expr) and isinstance(s.value, ast.Constant))]  # type: ignore
-        if any(isinstance(s, (ast.If, ast.Raise, ast.Assert)) for s in body):
+        if any(isinstance(s, (ast.If, ast.Raise, ast.Assert, ast.Try)) for s in body):
             env0: Dict[str, Any] = dict(zip(fi.params, args))
             env0.update(kw)
             done, val = self.eval_statements(fi, body, env0)
@@ -721,6 +722,17 @@ class Repo:
                     return True, val
             elif isinstance(st, ast.Raise):
                 raise FoldRaised(ast.unparse(st)[:120])
+            elif isinstance(st, ast.Try):
+                # the protected statements on these values; a failure inside them is "cannot fold" (handlers are not modelled)
+                done, val = self.eval_statements(fi, st.body, env)
+                if not done and st.orelse:
+                    done, val = self.eval_statements(fi, st.orelse, env)
+                if st.finalbody:
+                    d2, v2 = self.eval_statements(fi, st.finalbody, env)
+                    if d2:
+                        return True, v2
+                if done:
+                    return True, val
             elif isinstance(st, ast.Assert):
                 if not self.fold(st.test, fi.module, fi, env):
                     raise FoldRaised(ast.unparse(st)[:120])
